@@ -3,7 +3,7 @@
 // Harness vocabulary.  Under the symbolic executor (gosx) these functions are
 // intercepted by name; the bodies below are what runs in a native replay,
 // where the inputs come from a replay file written by the engine.
-package PKGNAME
+package tokenizer
 
 import (
 	"encoding/json"
@@ -122,18 +122,6 @@ func vxTrack(roots ...interface{})    {}
 func vxOr(a, b bool) bool             { return a || b }
 func vxAnd(a, b bool) bool            { return a && b }
 func vxImplies(a, b bool) bool        { return !a || b }
-func vxIteByte(c bool, a, b byte) byte {
-	if c {
-		return a
-	}
-	return b
-}
-func vxIteInt(c bool, a, b int) int {
-	if c {
-		return a
-	}
-	return b
-}
 func vxNative() bool                  { return true }
 func vxIsSymbolic(x interface{}) bool { return false }
 func vxPanics(f func()) (p bool) {
